@@ -123,7 +123,8 @@ fn json_str_list(v: &[String]) -> String {
     s
 }
 
-fn main_rs(prop: &str, corp: &Corpus, libs: &[LibCrate], skipped_rustc: &[String]) -> String {
+#[allow(clippy::type_complexity)]
+fn main_rs(prop: &str, corp: &Corpus, libs: &[LibCrate], skipped_rustc: &[String], rustc_ws: &Option<(PathBuf, Vec<(String, Vec<(String, String, String)>)>)>) -> String {
     let meta = crate::props::meta(prop);
     let n_compiled: usize = libs.iter().map(|l| l.scenarios.len()).sum();
     let n_variants: usize = corp.entries.iter().map(|e| e.variants.len()).sum();
@@ -136,10 +137,8 @@ fn main_rs(prop: &str, corp: &Corpus, libs: &[LibCrate], skipped_rustc: &[String
         }
     }
     let corpus_note = format!(
-        "corpus of this run: {} programs generated from VERIF_SEED ({} of them regenerated from the next attempt number and {} shape variants dropped because dfir_lang would compile a multiset_delta push-side, which rustc cannot type — see e3_ticksim/FINDINGS.md N1), {} rejected by the dfir_lang pre-check and skipped (not a violation: compile-time acceptance is C18/C19/C41 territory){}, {} rejected by rustc and skipped, {} compiled ({} program variants); operators compiled as pull/push (count per operator over all variants; {} operators seen in both colours): {}",
+        "corpus of this run: {} programs generated from VERIF_SEED, {} rejected by the dfir_lang pre-check and skipped (not a violation: compile-time acceptance is C18/C19/C41 territory){}, {} rejected by rustc and skipped, {} compiled ({} program variants); operators compiled as pull/push (count per operator over all variants; {} operators seen in both colours): {}",
         corp.generated,
-        corp.regenerated,
-        corp.variants_dropped,
         corp.rejected.len(),
         if corp.rejected.is_empty() { String::new() } else { format!(" [{}]", corp.rejected.iter().map(|r| format!("{}: {}", r.0, r.1.chars().take(120).collect::<String>())).collect::<Vec<_>>().join("; ")) },
         skipped_rustc.len(),
@@ -151,9 +150,28 @@ fn main_rs(prop: &str, corp: &Corpus, libs: &[LibCrate], skipped_rustc: &[String
     let mut assumptions: Vec<String> = meta.assumptions.iter().map(|s| s.to_string()).collect();
     assumptions.push(corpus_note);
     let mut s = String::new();
-    s.push_str("// generated by e3_ticksim — do not edit\nuse simcore::runner::{Engine, Prop, Scenario};\n\nfn main() {\n    let mut scenarios: Vec<Scenario> = vec![];\n");
+    s.push_str("// generated by e3_ticksim — do not edit\nuse simcore::runner::{Engine, Prop, Scenario};\n\n");
+    // rustc-level compile-agreement families (C22)
+    let mut fam_scen = String::new();
+    if let Some((ws, fams)) = rustc_ws {
+        s.push_str("use e3_core::rustc_leg::Family;\nuse std::sync::LazyLock;\n");
+        for (i, (fname, vs)) in fams.iter().enumerate() {
+            let _ = writeln!(s, "static FAM{i}: LazyLock<Family> = LazyLock::new(|| Family::new({fname:?}, {:?}, &[", ws.display().to_string());
+            for (vn, krate, json) in vs {
+                let _ = writeln!(s, "    ({vn:?}, {krate:?}, {}),", raw_str(json));
+            }
+            let _ = writeln!(s, "]));\nfn run_fam{i}(sim: &mut simcore::Sim) -> simcore::Outcome {{ e3_core::rustc_leg::run(sim, &FAM{i}) }}");
+            let _ = writeln!(fam_scen, "    scenarios.push(Scenario {{ name: {:?}, weight: 1, run: run_fam{i} }});", format!("rustc_{fname}"));
+        }
+    }
+    s.push_str("\nfn main() {\n    let mut scenarios: Vec<Scenario> = vec![];\n");
     for l in libs {
         let _ = writeln!(s, "    scenarios.extend({}::scenarios());", l.name);
+    }
+    if !fam_scen.is_empty() {
+        // compiled programs get 16 x the share of runs of a compile-agreement family
+        s.push_str("    for sc in scenarios.iter_mut() {\n        sc.weight = 16;\n    }\n");
+        s.push_str(&fam_scen);
     }
     let runs = corp.runs_per_program * n_compiled.max(1) as u64;
     let _ = writeln!(
@@ -169,6 +187,50 @@ fn main_rs(prop: &str, corp: &Corpus, libs: &[LibCrate], skipped_rustc: &[String
 }
 
 // must equal the profile of /verif/e3_ticksim/Cargo.toml, so that the dependency artefacts are shared
+/// Write the workspace of the rustc-level compile-agreement leg (one tiny lib crate per variant,
+/// named by content hash). Returns (workspace path, per family: (variant, crate, ast json)).
+#[allow(clippy::type_complexity)]
+fn write_rustc_ws(corp: &Corpus) -> Result<(PathBuf, Vec<(String, Vec<(String, String, String)>)>), String> {
+    let root = target_dir().join("gen").join("C22-rustc");
+    std::fs::create_dir_all(&root).map_err(|e| e.to_string())?;
+    let mut fams = vec![];
+    let mut members: Vec<String> = vec![];
+    for (fname, variants) in &corp.rustc_families {
+        let mut vs = vec![];
+        for (vname, p) in variants {
+            let src = format!("{}\n{}", emit::MODULE_PRELUDE, emit::build_fn("v", p));
+            let krate = format!("e3r_{:016x}", fnv_str(&src) ^ fnv_str(fname).rotate_left(7) ^ fnv_str(vname).rotate_left(13));
+            let dir = root.join(&krate);
+            let manifest = format!("[package]\nname = \"{krate}\"\nversion = \"0.0.0\"\nedition = \"2024\"\n\n[dependencies]\n{}", dep_block());
+            write_if_changed(&dir.join("Cargo.toml"), &manifest).map_err(|e| e.to_string())?;
+            write_if_changed(&dir.join("src/lib.rs"), &src).map_err(|e| e.to_string())?;
+            members.push(krate.clone());
+            vs.push((vname.clone(), krate, p.to_json()));
+        }
+        fams.push((fname.clone(), vs));
+    }
+    let mut ws = String::from("[workspace]\nresolver = \"2\"\nmembers = [");
+    for m in &members {
+        let _ = write!(ws, "\"{m}\", ");
+    }
+    let _ = writeln!(ws, "]\n\n{PROFILE}");
+    write_if_changed(&root.join("Cargo.toml"), &ws).map_err(|e| e.to_string())?;
+    write_if_changed(&root.join(".cargo/config.toml"), &format!("[net]\noffline = true\n[build]\ntarget-dir = \"{}\"\n", target_dir().display())).map_err(|e| e.to_string())?;
+    let _ = std::fs::copy(e3_dir().join("rust-toolchain.toml"), root.join("rust-toolchain.toml"));
+    if !root.join("Cargo.lock").exists() {
+        let _ = std::fs::copy(e3_dir().join("Cargo.lock"), root.join("Cargo.lock"));
+    }
+    if let Ok(rd) = std::fs::read_dir(&root) {
+        for ent in rd.flatten() {
+            let n = ent.file_name().to_string_lossy().to_string();
+            if n.starts_with("e3r_") && !members.contains(&n) {
+                let _ = std::fs::remove_dir_all(ent.path());
+            }
+        }
+    }
+    Ok((root, fams))
+}
+
 const PROFILE: &str = "[profile.release]\nopt-level = 2\ndebug = false\ncodegen-units = 16\nlto = \"off\"\npanic = \"unwind\"\nincremental = false\n\n[profile.release.build-override]\nopt-level = 2\ncodegen-units = 16\n";
 
 /// Write the workspace, build it, return the path of the engine binary.
@@ -183,11 +245,12 @@ pub fn build(prop: &str, seed: u64, tier: &str, corp: &Corpus) -> Result<PathBuf
     let opt = std::env::var("E3_GEN_OPT").unwrap_or_else(|_| "1".into());
     for round in 0..4 {
         let libs = lib_crates(corp, &skip);
-        if libs.is_empty() {
+        let rustc_ws = if corp.rustc_families.is_empty() { None } else { Some(write_rustc_ws(corp)?) };
+        if libs.is_empty() && rustc_ws.is_none() {
             return Err("no program left to compile".into());
         }
         let skipped: Vec<String> = skip.iter().cloned().collect();
-        let main_src = main_rs(prop, corp, &libs, &skipped);
+        let main_src = main_rs(prop, corp, &libs, &skipped, &rustc_ws);
         let mut h = fnv_str(&main_src);
         for l in &libs {
             h = (h ^ fnv_str(&l.name)).wrapping_mul(0x0000_0100_0000_01B3);
@@ -221,7 +284,7 @@ pub fn build(prop: &str, seed: u64, tier: &str, corp: &Corpus) -> Result<PathBuf
             }
         }
         let bdir = root.join(&bin_name);
-        let mut manifest = format!("[package]\nname = \"{bin_name}\"\nversion = \"0.0.0\"\nedition = \"2024\"\n\n[dependencies]\nsimcore = {{ path = \"{}/simcore\" }}\n", verif_dir().display());
+        let mut manifest = format!("[package]\nname = \"{bin_name}\"\nversion = \"0.0.0\"\nedition = \"2024\"\n\n[dependencies]\nsimcore = {{ path = \"{v}/simcore\" }}\ne3_core = {{ path = \"{v}/e3_ticksim/core\" }}\n", v = verif_dir().display());
         for l in &libs {
             let _ = writeln!(manifest, "{} = {{ path = \"../{}\" }}", l.name, l.name);
         }
